@@ -318,11 +318,12 @@ Definition amount_of_json (v : json) : res Z :=
    m * 2^e and 2^52 <= m < 2^53; zero is m = 0.  Only the normal range is modelled
    (quotients of an integer below 2^1024 by COIN never leave it). *)
 (* round-to-nearest-even of the positive rational n/d to 53 significant bits *)
+(* numerator and denominator of n / (d * 2^e) *)
+Definition scale2 (n d e : Z) : Z * Z := (n * 2 ^ Z.max 0 (- e), d * 2 ^ Z.max 0 e).
 Definition rn53 (n d : Z) : Z * Z :=
-  let e0 := Z.log2 n - Z.log2 d - 52 in
-  let scaled := fun e : Z => if 0 <=? e then (n, d * 2 ^ e) else (n * 2 ^ (- e), d) in
-  let e := let (n', d') := scaled e0 in if n' <? d' * 2 ^ 52 then e0 - 1 else e0 in
-  let (n', d') := scaled e in
+  let e0 := Z.log2 n - Z.log2 d - 52 in            (* 2^51 < n / (d 2^e0) < 2^53 *)
+  let e := let (n', d') := scale2 n d e0 in if n' <? d' * 2 ^ 52 then e0 - 1 else e0 in
+  let (n', d') := scale2 n d e in                  (* 2^52 <= n'/d' < 2^53 *)
   let q := n' / d' in
   let r := n' mod d' in
   let m := if (2 * r >? d') || ((2 * r =? d') && Z.odd q) then q + 1 else q in
@@ -350,22 +351,24 @@ Definition rounds_to (m e c q : Z) : bool :=
   (0 <? c) &&
   let (n, d) := if 0 <=? q then (c * 10 ^ q, 1) else (c, 10 ^ (- q)) in
   let (m', e') := rn53 n d in (m' =? m) && (e' =? e).
+(* both neighbours lo*10^q and (lo+1)*10^q of the value round back: the closer one, the even
+   one on a tie (dtoa's round-half-even on the last digit) *)
+Definition pick_closer (m e q lo : Z) : Z :=
+  let (vn, vd) := if 0 <=? e then (m * 2 ^ e, 1) else (m, 2 ^ (- e)) in
+  let (l, r) := if 0 <=? q then (2 * vn, (lo + (lo + 1)) * 10 ^ q * vd)
+                else (2 * vn * 10 ^ (- q), (lo + (lo + 1)) * vd) in
+  if l <? r then lo else if r <? l then lo + 1 else if Z.even lo then lo else lo + 1.
 Fixpoint shortest_f (fuel : nat) (m e q : Z) : Z * Z :=
   match fuel with
   | O => (0, 0)
   | S f =>
       let (vn, vd) := if 0 <=? e then (m * 2 ^ e, 1) else (m, 2 ^ (- e)) in
       let lo := if 0 <=? q then vn / (vd * 10 ^ q) else (vn * 10 ^ (- q)) / vd in
-      let hi := lo + 1 in
       let ok_lo := rounds_to m e lo q in
-      let ok_hi := rounds_to m e hi q in
-      if ok_lo && ok_hi then
-        (* both round back: the one closer to the value (2v <= (lo+hi) 10^q  -> lo) *)
-        let lo_closer := if 0 <=? q then 2 * vn <=? (lo + hi) * 10 ^ q * vd
-                         else 2 * vn * 10 ^ (- q) <=? (lo + hi) * vd in
-        ((if lo_closer then lo else hi), q)
+      let ok_hi := rounds_to m e (lo + 1) q in
+      if ok_lo && ok_hi then (pick_closer m e q lo, q)
       else if ok_lo then (lo, q)
-      else if ok_hi then (hi, q)
+      else if ok_hi then (lo + 1, q)
       else shortest_f f m e (q - 1)
   end.
 Definition shortest_dec (m e : Z) : Z * Z :=
@@ -593,6 +596,14 @@ Definition new_proxy : proxy := {| id_count := 0 |}.     (* BaseProxy.__init__ *
 
 Record event := { ev_sent : option request; ev_out : outcome rval }.
 
+(* what a wrapper computes before it reaches _call and that can fail: float(amount) *)
+Definition precheck (m : mcall) : res unit :=
+  match m with
+  | MSendToAddress _ a => do _f <- float_div_coin a; Ok tt
+  | MSendMany _ ps => do _l <- mapM (fun p => float_div_coin (snd p)) ps; Ok tt
+  | _ => Ok tt
+  end.
+
 (* one wrapper call on proxy p answered by reply rp *)
 Definition step (o : objs) (p : proxy) (m : mcall) (rp : reply) : proxy * event :=
   match request_of m with
@@ -605,6 +616,9 @@ Definition step (o : objs) (p : proxy) (m : mcall) (rp : reply) : proxy * event 
                        | _ => obind (call_outcome rp) (fun j => Result (RJson j))
                        end |})
   | Some (name, params) =>
+      match precheck m with
+      | Err e => (p, {| ev_sent := None; ev_out := Failed e |})   (* raised before _call: no id used *)
+      | Ok _ =>
       let id := id_count p + 1 in                               (* self.__id_count += 1 *)
       let p' := {| id_count := id |} in
       let sent := {| rq_id := id; rq_method := name; rq_params := params |} in
@@ -616,6 +630,7 @@ Definition step (o : objs) (p : proxy) (m : mcall) (rp : reply) : proxy * event 
         | _ => obind (translate m (call_outcome rp)) (convert o m)
         end in
       (p', {| ev_sent := Some sent; ev_out := out |})
+      end
   end.
 
 Fixpoint run (o : objs) (p : proxy) (ops : list (mcall * reply)) : list event :=
